@@ -244,6 +244,10 @@ func c16Prop(c *sim.Case) {
 			AccessToken: &oidcv1.TokenConfig{Header: "x-at"},
 			Logout:      &oidcv1.LogoutConfig{Path: "/logout-" + t.name, RedirectUri: t.idp.EndSessionURL()},
 		}
+		if pickBool("session-timeouts") {
+			// limits far beyond the workload, different for every tenant (whatever is kept per limit is kept apart)
+			cfg.AbsoluteSessionTimeout, cfg.IdleSessionTimeout = uint32(7200*(i+1)), uint32(1800*(i+1))
+		}
 		if t.disc {
 			if sim.Weighted(c, "flaky-discovery", 2, 1) == 1 || c16Force && i == 0 {
 				// the first lookups of the discovery document fail (slowly): concurrent first uses share the failure
